@@ -621,7 +621,52 @@ func c10Clamp(c *Ctx, a *sketchAnchors) {
 				}
 			}
 		}
-		c.R.check(bad == "" && nMin > 0 && nMax > 0, rule, shortFn(f)+"/element-clamp", shortFn(f), c.fpos(f), "each element is replaced by min only under element<min and by max only under element>max", firstNonEmpty(bad, fmt.Sprintf("%d min / %d max guarded stores on %d paths", nMin, nMax, len(ps))))
+		// … and EVERY element is examined: the loop(s) doing the clamping are left only through their counter test —
+		// stopping at the first element that needs no clamping assumes the quantiles were given in ascending order
+		{
+			tcl := newTermCtx(c.P)
+			for _, l := range naturalLoops(f) {
+				clamps := false
+				for b := range l.body {
+					for _, in := range b.Instrs {
+						if st, ok := in.(*ssa.Store); ok {
+							if at := tcl.Of(st.Addr); at.Op == "index" && (isStat(tcl.Of(st.Val), minF) || isStat(tcl.Of(st.Val), maxF)) {
+								clamps = true
+							}
+						}
+					}
+				}
+				if !clamps {
+					continue
+				}
+				for b := range l.body {
+					iff, ok := b.Instrs[len(b.Instrs)-1].(*ssa.If)
+					if !ok {
+						continue
+					}
+					exits := false
+					for _, sc := range b.Succs {
+						if !l.body[sc] {
+							exits = true
+						}
+					}
+					if !exits {
+						continue
+					}
+					dataDep := false
+					tcl.Of(iff.Cond).walk(func(x *Term) bool {
+						if x.Op == "index" || isStat(x, minF) || isStat(x, maxF) {
+							dataDep = true
+						}
+						return true
+					})
+					if dataDep {
+						bad = firstNonEmpty(bad, "the clamping loop is left on a test of the data ("+tcl.Of(iff.Cond).Key()+"): later elements are not examined")
+					}
+				}
+			}
+		}
+		c.R.check(bad == "" && nMin > 0 && nMax > 0, rule, shortFn(f)+"/element-clamp", shortFn(f), c.fpos(f), "each element is replaced by min only under element<min and by max only under element>max, and every element is examined", firstNonEmpty(bad, fmt.Sprintf("%d min / %d max guarded stores on %d paths", nMin, nMax, len(ps))))
 	}
 	// getters read the statistics
 	type g struct{ name, callee string }
